@@ -183,7 +183,7 @@ type({F_capsule_data_type}), intent(INOUT) :: ptr
         cxx_include=["<cstring>"],
         # Create a single C routine which is called from Fortran
         # via an interface for each cxx_type.
-        cxx_source=wformat(
+        source=wformat(
                 """
 {lstart}// helper {hname}
 // Copy std::vector into array c_var(c_var_size).
